@@ -15,6 +15,7 @@ require (
 
 require (
 	github.com/goose-lang/std v0.4.1 // indirect
+	github.com/rodaine/table v1.2.0 // indirect
 	golang.org/x/sys v0.22.0 // indirect
 )
 
